@@ -1,6 +1,6 @@
 (* C12 - outbound messages keep their order and drive the state machine in that
    order.  All statements: every state map, role, constants, every label list. *)
-From V Require Import Lib.Base C11.Engine C11.EngineProofs C11.Model C12.Proofs C12.Gen.
+From V Require Import Lib.Base C11.Engine C11.EngineProofs C11.Model C12.Proofs C12.Compose C12.ComposeProofs C12.Gen.
 Local Open Scope N_scope.
 
 (* messages written for the wire, then the (at most one) message refused by the
@@ -75,11 +75,90 @@ Proof.
 Qed.
 Print Assumptions C12_first_rejected.
 
-(* NOT PROVED (C12_conforming): the two-endpoint composition "a conforming
-   caller's whole conversation is accepted by the peer" - see notes/C12.md.
-   What is proved about one endpoint and is the local half of that statement:
-   whatever is sent is a path of the state machine (C12_interleave), in enqueue
-   order (C12_wire_order, C12_transition_order). *)
+(* ---- two endpoints ---------------------------------------------------------
+   Client engine A and server engine B of the same state map over two FIFO
+   wires (C12/Compose.v).  `conforming`: the conversation is a path of the
+   automaton from s0, every message sent from a state where a side has agency,
+   every message non-empty and within maxReadBufferSize and every declared
+   byte limit.  The callers enqueue exactly the two projections, in order, AT
+   ANY TIME (arbitrary pipelining, also by the server; only the capacity of the
+   send queue and the pending-send limit delay an Enq).  For EVERY schedule of
+   the composed system:
+   - no loop of either endpoint ever fails or returns, no error flag is set
+     (`healthy`): every message is accepted by the peer's state machine;
+   - each handler log is, in order, a prefix of the peer's projection, each
+     transition log a prefix of the conversation;
+   - an endpoint that has made all its transitions and called its last handler
+     has handed exactly the peer's projection to its application.
+   PARTIAL: not proved is PROGRESS - that a state in which no label of the
+   composition is enabled has completed the conversation (deadlock freedom:
+   needs sendHeld -> SHeld, recvHeld -> LWaitMsg, pendS = sum of queued sizes,
+   RDecode -> rbuf > 0 and conservation of bytes between B's written messages,
+   the wire and A's read buffer).  The real two-engine runs of the harness
+   exercise it. *)
+Theorem C12_conforming_partial : forall sm s0 rqa rqb k conv,
+  conforming sm s0 k conv ->
+  forall ls s, crun sm s0 rqa rqb k conv (cinit sm s0) ls = Some s ->
+  healthy (ea s) /\ healthy (eb s) /\
+  prefix (hmsgs (ea s)) (projR sm RServer s0 conv) /\ prefix (hmsgs (eb s)) (projR sm RClient s0 conv) /\
+  prefix (map tmsg (tlog (lg (ea s)))) conv /\ prefix (map tmsg (tlog (lg (eb s)))) conv /\
+  prefix (wire_log (lg (ea s))) (projR sm RClient s0 conv) /\ prefix (wire_log (lg (eb s))) (projR sm RServer s0 conv) /\
+  (length (tlog (lg (ea s))) = length conv -> accepted_pending (lph (rc (ea s))) = [] ->
+     hmsgs (ea s) = projR sm RServer s0 conv) /\
+  (length (tlog (lg (eb s))) = length conv -> accepted_pending (lph (rc (eb s))) = [] ->
+     hmsgs (eb s) = projR sm RClient s0 conv).
+Proof.
+  intros sm s0 rqa rqb k conv HC ls s R.
+  destruct (CInv_run sm s0 rqa rqb k conv HC ls s R) as (IA & IB).
+  destruct (EInv_logs sm s0 k conv HC _ _ _ _ _ IA) as (A1 & A2 & A3 & A4 & A5).
+  destruct (EInv_logs sm s0 k conv HC _ _ _ _ _ IB) as (B1 & B2 & B3 & B4 & B5).
+  split; [exact A1|]. split; [exact B1|]. split; [exact A3|]. split; [exact B3|].
+  split; [exact A2|]. split; [exact B2|]. split; [exact A4|]. split; [exact B4|].
+  split; intros L P; [apply (proj1 (A5 L P))|apply (proj1 (B5 L P))].
+Qed.
+Print Assumptions C12_conforming_partial.
+
+(* non-vacuity: a chain-sync conversation with a pipelined second RequestNext,
+   an AwaitReply and a final Done, run through the composition to completion *)
+Definition cs_conv : list msg :=
+  [M 1 0 3 []; M 2 2 40 []; M 3 0 3 []; M 4 1 3 []; M 5 3 20 []; M 6 7 3 []].
+Definition cs_sched : list (bool * label) :=
+  map (pair true) [Enq (M 1 0 3 []); Enq (M 3 0 3 []); TakeSendToken; SendDeq; SendDeq; BatchEnd; SendSeg 6] ++
+  map (pair false) [TakeRecvToken; SegIn 6; DecMsg (M 1 0 3 []); Admit; Put; DecMsg (M 3 0 3 []); Admit; Put;
+                    Handle; HandlerCall; HandlerRet HOk; Enq (M 2 2 40 []); TakeSendToken; SendDeq; BatchEnd; SendSeg 40;
+                    TakeRecvToken; Handle; HandlerCall; HandlerRet HOk; Enq (M 4 1 3 []); Enq (M 5 3 20 []);
+                    TakeSendToken; SendDeq; SendDeq; BatchEnd; SendSeg 23; TakeSendToken; SendQueuedTransition] ++
+  map (pair true) [TakeRecvToken; SegIn 40; DecMsg (M 2 2 40 []); Admit; Put; Handle; HandlerCall; HandlerRet HOk;
+                   TakeSendToken; SendQueuedTransition; TakeRecvToken; SegIn 23; DecMsg (M 4 1 3 []); Admit; Put;
+                   DecMsg (M 5 3 20 []); Admit; Put; Handle; HandlerCall; HandlerRet HOk;
+                   TakeRecvToken; Handle; HandlerCall; HandlerRet HOk;
+                   Enq (M 6 7 3 []); TakeSendToken; SendDeq; BatchEnd; SendSeg 3] ++
+  map (pair false) [TakeRecvToken; SegIn 3; DecMsg (M 6 7 3 []); Admit; Put; Handle; HandlerCall; HandlerRet HOk].
+Example C12_conforming_run :
+  match crun sm_chainsync_ntn 1 55 55 consts_gen cs_conv (cinit sm_chainsync_ntn 1) cs_sched with
+  | Some s => map m_id (hmsgs (ea s)) = [2; 4; 5] /\ map m_id (hmsgs (eb s)) = [1; 3; 6] /\
+              length (tlog (lg (ea s))) = 6%nat /\ length (tlog (lg (eb s))) = 6%nat /\
+              cur (c (ea s)) = 5 /\ cur (c (eb s)) = 5 /\
+              map m_id (projR sm_chainsync_ntn RClient 1 cs_conv) = [1; 3; 6] /\
+              map m_id (projR sm_chainsync_ntn RServer 1 cs_conv) = [2; 4; 5]
+  | None => False
+  end.
+Proof. vm_compute. repeat split; reflexivity. Qed.
+Lemma cs_limits : forall q, limit_of sm_chainsync_ntn q = 0 \/ limit_of sm_chainsync_ntn q = 462000.
+Proof.
+  intros q. unfold limit_of, entry_of, sm_chainsync_ntn. cbn [sm_entries lookup_entry].
+  repeat (destruct (N.eqb _ q); [right; reflexivity|]). left. reflexivity.
+Qed.
+Example C12_conforming_hyp : conforming sm_chainsync_ntn 1 consts_gen cs_conv.
+Proof.
+  split.
+  - cbn [Compose.cpath cs_conv].
+    repeat (eexists; split; [vm_compute; reflexivity|split; [vm_compute; discriminate|]]). exact I.
+  - intros m H. cbn in H.
+    assert (L : m_len m <= 40 /\ 0 < m_len m).
+    { repeat (destruct H as [<-|H]; [cbn; lia|]). destruct H. }
+    split; [lia|]. split; [cbn; lia|]. intros q. destruct (cs_limits q) as [E|E]; [left; exact E|right; rewrite E; lia].
+Qed.
 
 (* non-vacuity: a pipelined chain-sync client (three RequestNext in one batch) *)
 Example C12_pipelined_run :
